@@ -39,14 +39,9 @@ inductive Reach (succ : Id → List Id) : Id → Id → Prop
 def IsAnc (h : Hist) (roots : List Id) (x : Id) : Prop := ∃ r ∈ roots, Reach (parents h) r x
 def IsDesc (h : Hist) (roots : List Id) (x : Id) : Prop := ∃ r ∈ roots, Reach (children h) r x
 
-/-- closure fuel: one unit per stack entry ever pushed -/
-def fuelFor (succ : Id → List Id) (nodes roots : List Id) : Nat :=
-  roots.length + (nodes.map (fun n => (succ n).length + 1)).foldl (· + ·) 0 + 1
-
 /-- decision procedure for `IsAnc` / `IsDesc` (the worklist closure proved correct in
     `Lemmas/Rev/Closure.lean`) -/
-def closure (succ : Id → List Id) (nodes roots : List Id) : List Id :=
-  iter succ (fuelFor succ nodes roots) roots []
+def closure (succ : Id → List Id) (nodes roots : List Id) : List Id := closureOf succ nodes roots
 
 def ancSet (h : Hist) (roots : List Id) : List Id := closure (parents h) (ids h) roots
 def descSet (h : Hist) (roots : List Id) : List Id := closure (children h) (ids h) roots
